@@ -45,6 +45,16 @@ claimed = {
    text="Every enumerated document is parsed by the real parser, encoded with encoding/json, decoded back and compared through the canonical projection: selection kinds at every depth and in every order, names, aliases, arguments, all value kinds, directives, type conditions, variable definitions.",
    note="Trusted: the parser as tree constructor (C05), encoding/json, the projection walker. Positions are not encoded (json:\"-\") and not compared.",
    ref="DESIGN.md §4 C19"),
+ "C14": dict(
+   technique=T + "all 240 variable types (list depth ≤3 × every non-null pattern × 8 named types) × every value within ≤2/3 deviations of the conforming skeleton (choice-tree DFS with prefix replay and deviation bounding over 22 leaf alternatives, 7 list shapes, 16 input-object variants) × default/no default, plus absent / explicit-null modes; oracle: reference coercion semantics (ref/refcoerce) on every execution",
+   text="For every enumerated (type, variables) pair the real VariableValues runs on a freshly validated operation: it must return normally; if ref/refcoerce judges the value not coercible an error must come back; when values come back every declared variable must conform to its declared type (non-null, list items at every depth incl. single-value coercion, declared input fields with required ones present, declared enum values, compatible scalar kinds), absent variables hold their defaults, explicit nulls stay null, and a second absent variable keeps its default.",
+   note="Trusted: ref/refcoerce (structural recursion from the specification; the scalar kind table is the library's documented one). Undecided and not compared: case-insensitive enum matches, __typename keys, unsigned/small integer kinds, numeric range. Refusing a coercible value is not a violation.",
+   ref="DESIGN.md §4 C14"),
+ "C15": dict(
+   technique=T + "a field and a directive with 11 arguments of every flavour × every argument source (omitted, 27 literals, variable × 3 declarations × 3 supply modes, variable nested in list/object/custom-scalar literals × the same 9) and every pair of sources on different arguments; oracle: CoerceArgumentValues computed from the case description, compared with ArgumentMap on every validated and coerced case",
+   text="Every case is rendered to a document, validated by the library, its variables coerced by the library, and ArgumentMap of the field / directive is compared (keys and values) with the specification's CoerceArgumentValues computed from the check's own description of the case: literal (converted recursively, nested variables substituted) > variable value > argument default > absent. Panics are violations; a recorded one (out-of-range numeric literal for a custom scalar) is excused only under its exact (site, message, trigger) key.",
+   note="Trusted: the check's literal model. Only validated documents and coerced variables are judged (the property's precondition). Nested variables with no value at all are undecided (keys still checked).",
+   ref="DESIGN.md §4 C15"),
 }
 checks = []
 for i in ids:
